@@ -106,13 +106,13 @@ func c03Big(n int, fill byte) []byte { return bytes.Repeat([]byte{fill}, n) }
 
 // one block's worth of mutations; big selects values large enough to split the commit
 func c03Mutate(st *AccountDB, e *c03Expect, tag string, big bool) {
-	v := new(big0).SetUint64(symx.U64(tag + ".balance"))
+	v := new(big0).SetUint64([]uint64{0, 1, 1000000000000000000}[symx.Choice(tag+".balance", 3)])
 	st.SetBalance(c03Addrs[0], v)
 	e.balance[c03Addrs[0]] = v
-	n := uint64(symx.U8(tag + ".nonce"))
+	n := []uint64{0, 1, 127, 128, 1 << 40}[symx.Choice(tag+".nonce", 5)]
 	st.SetNonce(c03Addrs[1], n)
 	e.nonce[c03Addrs[1]] = n
-	b := new(big0).SetUint64(uint64(symx.U8(tag+".balanceB")) + 1)
+	b := new(big0).SetUint64(uint64(symx.Choice(tag+".balanceB", 2)) + 1)
 	st.SetBalance(c03Addrs[1], b)
 	e.balance[c03Addrs[1]] = b
 	small := []byte{symx.U8(tag + ".slot"), 1}
